@@ -46,6 +46,13 @@ def run(ctx, R, tier):
     # 'a paused branch contributes exact silence': a pause the track reads reaches its state machine in every state
     from . import c03
     c03.commands_reach_manager(F, R, rule='B.C02.cmd-applied', owners=c03.TRACK_OWNERS, floor=2)
+    # a pause / resume issued on a track handle is written whatever state the handle believes the track to be in
+    from .c07 import write_unconditional
+    write_unconditional(F, R, rule='B.C02.cmd', floor=4, fn_filter=lambda q: q.startswith('track::') and 'handle' in q)
+    # 'each track's effects applied at that track': every track that reaches the renderer had its effects initialised with the
+    # rate in force (the C16 rule)
+    from .c16 import init_sites
+    init_sites(F, R)
     from .c06 import in_chunk_time
     in_chunk_time(F, R, rule='B.C02.in-chunk')
     from .c06 import param_cache
